@@ -102,6 +102,8 @@ inductive Step (c : Cfg) (s : St) : Ev → St → Prop
   | waitRet (k : Nat) (m : Nat × Nat) (hm : s.marks.find? (fun m => m.1 == k) = some m)
       (hall : ∀ id ∈ s.unres, m.2 ≤ id) :
       Step c s (.waitRet k) s
+  | marker :
+      Step c s (.marker s.br.log.length) { s with br := { s.br with log := s.br.log ++ [markerRec] } }
 
 theorem onAcc_sound {c : Cfg} {s s' : St} {t i : Nat} {u : Int} (h : onAcc s t i u = .ok s') :
     Step c s (.acc t i u) s' := by
@@ -352,6 +354,15 @@ theorem onWaitRet_sound {c : Cfg} {s s' : St} {k : Nat}
       simpa using this
     · cases h
 
+theorem onMarker_sound {c : Cfg} {s s' : St} {off : Int}
+    (h : onMarker s off = .ok s') : Step c s (.marker off) s' := by
+  unfold onMarker at h
+  split at h
+  · rename_i ho
+    injection h with h; subst h; subst ho
+    exact Step.marker
+  · cases h
+
 /-- every accepted transition of `step` is one of the listed ones -/
 theorem step_sound {c : Cfg} {s s' : St} {e : Ev} (h : step c s e = .ok s') : Step c s e s' := by
   cases e with
@@ -362,6 +373,7 @@ theorem step_sound {c : Cfg} {s s' : St} {e : Ev} (h : step c s e = .ok s') : St
   | resolved id r => exact onResolved_sound h
   | waitCall k => exact onWaitCall_sound h
   | waitRet k => exact onWaitRet_sound h
+  | marker off => exact onMarker_sound h
 
 /-! ## runs -/
 
@@ -514,6 +526,7 @@ theorem inv1_step {c : Cfg} {s s' : St} {e : Ev} (h : Inv1 c s) (st : Step c s e
       have := h.drainedAcc; rw [hpend] at this; simp only [List.length_cons] at this; omega
   | waitCall k hk => exact ⟨h.ids, h.phaseCur, h.curHead, h.drainedAcc, h.taskOrder⟩
   | waitRet k m hm hall => exact h
+  | marker => exact ⟨h.ids, h.phaseCur, h.curHead, h.drainedAcc, h.taskOrder⟩
 
 /-! ## shape of the partition log -/
 
@@ -525,12 +538,30 @@ theorem firstsR_bump (l : List (List Nat × Nat)) : firstsR (bump l) = firstsR l
   | nil => rfl
   | cons x r => obtain ⟨b, k⟩ := x; rfl
 
+theorem dataIds_marker (log : List LogRec) : dataIds (log ++ [markerRec]) = dataIds log := by
+  simp [dataIds, markerRec]
+
+theorem tsType_le (ts : Int) : tsType ts ≤ 1 := by
+  unfold tsType; split <;> omega
+
+theorem dataIds_stored (log : List LogRec) (recs : List Rec) (ats : Int) :
+    dataIds (log ++ stored recs ats) = dataIds log ++ recs.map (·.id) := by
+  have hf : (stored recs ats).filter (fun x => x.tt != 2) = stored recs ats := by
+    apply List.filter_eq_self.mpr
+    intro x hx
+    simp only [stored, List.mem_map] at hx
+    obtain ⟨r, _, rfl⟩ := hx
+    have := tsType_le ats
+    simp only [storeRec, bne_iff_ne, ne_eq]
+    omega
+  simp only [dataIds, List.filter_append, hf, List.map_append, stored_ids]
+
 structure Inv2 (c : Cfg) (s : St) : Prop where
   sub : (firstsR s.blog ++ s.pending.map (·.id)).Sublist (s.accepted.map (·.id))
   shape : logIds s = expandR s.blog
 
 theorem inv2_init (c : Cfg) : Inv2 c (St.init c) := by
-  refine ⟨?_, ?_⟩ <;> simp [St.init, firstsR, logIds, expandR]
+  refine ⟨?_, ?_⟩ <;> simp [St.init, firstsR, logIds, dataIds, expandR]
 
 theorem inv2_step {c : Cfg} {s s' : St} {e : Ev} (h1 : Inv1 c s) (h : Inv2 c s) (st : Step c s e s') :
     Inv2 c s' := by
@@ -560,22 +591,22 @@ theorem inv2_step {c : Cfg} {s s' : St} {e : Ev} (h1 : Inv1 c s) (h : Inv2 c s) 
     refine ⟨?_, ?_⟩
     · show (firstsR (bump s.blog) ++ _).Sublist _
       rw [firstsR_bump]; exact h.sub
-    · show ((s.br.appendIdem b ats).log).map (·.id) = expandR (bump s.blog)
+    · show dataIds (s.br.log ++ stored b.recs ats) = expandR (bump s.blog)
       have hs := h.shape
       simp only [logIds] at hs
-      simp only [Broker.appendIdem, List.map_append, stored_ids, hs, hb, bump, expandR, rep,
-        List.append_assoc, Batch.ids]
+      rw [dataIds_stored, hs, hb]
+      simp only [bump, expandR, rep, List.append_assoc, Batch.ids]
   | applyDupIdem b seq e ats h0 hp hc hi hseq hchk hrecs hcount => exact ⟨h.sub, h.shape⟩
   | applyAppendPlain b seq ats h0 hp hc hi =>
     obtain ⟨_, k, rest, hb⟩ := h1.curHead b hc
     refine ⟨?_, ?_⟩
     · show (firstsR (bump s.blog) ++ _).Sublist _
       rw [firstsR_bump]; exact h.sub
-    · show ((s.br.appendPlain b ats).log).map (·.id) = expandR (bump s.blog)
+    · show dataIds (s.br.log ++ stored b.recs ats) = expandR (bump s.blog)
       have hs := h.shape
       simp only [logIds] at hs
-      simp only [Broker.appendPlain, List.map_append, stored_ids, hs, hb, bump, expandR, rep,
-        List.append_assoc, Batch.ids]
+      rw [dataIds_stored, hs, hb]
+      simp only [bump, expandR, rep, List.append_assoc, Batch.ids]
   | doneNoack a b hp hc h0 => exact ⟨h.sub, h.shape⟩
   | doneExc a b hp hc => exact ⟨h.sub, h.shape⟩
   | doneOk b fs info off ts hp hc h0 hdec hcode hoff hts => exact ⟨h.sub, h.shape⟩
@@ -592,6 +623,10 @@ theorem inv2_step {c : Cfg} {s s' : St} {e : Ev} (h1 : Inv1 c s) (h : Inv2 c s) 
     exact List.Sublist.append (List.Sublist.refl _) (by simp)
   | waitCall k hk => exact ⟨h.sub, h.shape⟩
   | waitRet k m hm hall => exact h
+  | marker =>
+    refine ⟨h.sub, ?_⟩
+    show dataIds (s.br.log ++ [markerRec]) = expandR s.blog
+    rw [dataIds_marker]; exact h.shape
 
 /-! ## the broker's check -/
 
@@ -763,6 +798,7 @@ theorem inv3_step {c : Cfg} {s s' : St} {e : Ev} (h1 : Inv1 c s) (h : Inv3 c s) 
     rw [hc] at hb'; cases hb'
   | waitCall k hk => exact ⟨h.counts, h.link⟩
   | waitRet k m hm hall => exact h
+  | marker => exact ⟨h.counts, h.link⟩
 
 /-! ## every future is resolved at most once; accepted = unresolved + resolved -/
 
@@ -855,6 +891,7 @@ theorem inv4_step {c : Cfg} {s s' : St} {e : Ev} (h : Inv4 s) (st : Step c s e s
   | giveUpIdle p rest hu hd hp hc hpend => exact inv4_resolve h hu .fail
   | waitCall k hk => exact h
   | waitRet k m hm hall => exact h
+  | marker => exact h
 
 /-! ## coordinates: what a future is told is where the record sits -/
 
@@ -1059,6 +1096,10 @@ theorem inv5_step {c : Cfg} {s s' : St} {e : Ev} (h : Inv5 c s) (st : Step c s e
         · exact h.coords x (Or.inr hx)
   | waitCall k hk => exact ⟨h.entries, h.flying, h.coords⟩
   | waitRet k m hm hall => exact h
+  | marker =>
+    exact ⟨fun e he => sliceOK_append _ (h.entries e he),
+      fun b off ts hb hp => sliceOK_append _ (h.flying b off ts hb hp),
+      fun x hx => coordOK_append _ (h.coords x hx)⟩
 
 /-! ## which results can occur -/
 
@@ -1173,6 +1214,7 @@ theorem inv6_step {c : Cfg} {s s' : St} {e : Ev} (h : Inv6 c s) (st : Step c s e
     simp only [List.map_cons, List.nodup_cons]
     exact ⟨hk, h.marksNodup⟩
   | waitRet k m hm hall => exact h
+  | marker => exact ⟨h.acks0, h.noFail, h.marksNodup⟩
 
 /-! ## sequence numbers -/
 
@@ -1409,13 +1451,14 @@ theorem inv7_step {c : Cfg} {s s' : St} {e : Ev} (hs : SeqHyp c) (h1 : Inv1 c s)
     · intro _ _ _ hg; simp at hg
   | waitCall k hk => exact ⟨h.next, h.curSeq, h.flyingOk, h.sync⟩
   | waitRet k m hm hall => exact h
+  | marker => exact ⟨h.next, h.curSeq, h.flyingOk, h.sync⟩
 
 /-! ## the log holds accepted records -/
 
 structure Inv8 (c : Cfg) (s : St) : Prop where
   pendSub : ∀ r ∈ s.pending, r ∈ s.accepted
   curSub : ∀ b, s.cur = some b → ∀ r ∈ b.recs, r ∈ s.accepted
-  logSub : ∀ x ∈ s.br.log, ∃ r ∈ s.accepted, ∃ ats, x = storeRec ats r
+  logSub : ∀ x ∈ s.br.log, x = markerRec ∨ ∃ r ∈ s.accepted, ∃ ats, x = storeRec ats r
 
 theorem inv8_init (c : Cfg) : Inv8 c (St.init c) := by
   refine ⟨?_, ?_, ?_⟩
@@ -1424,14 +1467,15 @@ theorem inv8_init (c : Cfg) : Inv8 c (St.init c) := by
   · intro x hx; simp [St.init] at hx
 
 theorem logSub_append {accepted : List Rec} {log : List LogRec} {recs : List Rec} (ats : Int)
-    (h : ∀ x ∈ log, ∃ r ∈ accepted, ∃ ats, x = storeRec ats r) (hr : ∀ r ∈ recs, r ∈ accepted) :
-    ∀ x ∈ log ++ stored recs ats, ∃ r ∈ accepted, ∃ ats, x = storeRec ats r := by
+    (h : ∀ x ∈ log, x = markerRec ∨ ∃ r ∈ accepted, ∃ ats, x = storeRec ats r)
+    (hr : ∀ r ∈ recs, r ∈ accepted) :
+    ∀ x ∈ log ++ stored recs ats, x = markerRec ∨ ∃ r ∈ accepted, ∃ ats, x = storeRec ats r := by
   intro x hx
   rcases List.mem_append.mp hx with hx | hx
   · exact h x hx
   · simp only [stored, List.mem_map] at hx
     obtain ⟨r, hr', rfl⟩ := hx
-    exact ⟨r, hr r hr', ats, rfl⟩
+    exact Or.inr ⟨r, hr r hr', ats, rfl⟩
 
 theorem inv8_step {c : Cfg} {s s' : St} {e : Ev} (h : Inv8 c s) (st : Step c s e s') : Inv8 c s' := by
   cases st with
@@ -1446,8 +1490,9 @@ theorem inv8_step {c : Cfg} {s s' : St} {e : Ev} (h : Inv8 c s) (st : Step c s e
     · intro b hb r hr
       exact List.mem_append_left _ (h.curSub b hb r hr)
     · intro x hx
-      obtain ⟨r, hr, ats, hxe⟩ := h.logSub x hx
-      exact ⟨r, List.mem_append_left _ hr, ats, hxe⟩
+      rcases h.logSub x hx with hm | ⟨r, hr, ats, hxe⟩
+      · exact Or.inl hm
+      · exact Or.inr ⟨r, List.mem_append_left _ hr, ats, hxe⟩
   | retry pid ep b hp hc hst => exact ⟨h.pendSub, h.curSub, h.logSub⟩
   | fresh pid ep seq ids hp hne hpre hst hseq =>
     refine ⟨?_, ?_, h.logSub⟩
@@ -1479,6 +1524,12 @@ theorem inv8_step {c : Cfg} {s s' : St} {e : Ev} (h : Inv8 c s) (st : Step c s e
     exact h.pendSub r (by rw [hpend]; exact List.mem_cons_of_mem _ hr)
   | waitCall k hk => exact ⟨h.pendSub, h.curSub, h.logSub⟩
   | waitRet k m hm hall => exact h
+  | marker =>
+    refine ⟨h.pendSub, h.curSub, ?_⟩
+    intro x hx
+    rcases List.mem_append.mp hx with hx | hx
+    · exact h.logSub x hx
+    · simp only [List.mem_singleton] at hx; exact Or.inl hx
 
 /-! ## pending records are unresolved; results due belong to transmitted batches -/
 
@@ -1608,6 +1659,65 @@ theorem inv9_step {c : Cfg} {s s' : St} {e : Ev} (h1 : Inv1 c s) (h2 : Inv2 c s)
     exact (List.mem_erase_of_ne hne).mpr (h.pendUnres r (by rw [hpend]; exact List.mem_cons_of_mem _ hr))
   | waitCall k hk => exact ⟨h.pendUnres, h.dueFirsts⟩
   | waitRet k m hm hall => exact h
+  | marker => exact ⟨h.pendUnres, h.dueFirsts⟩
+
+/-! ## metadata results carry timestamp type 0 or 1 (never confused with a marker) -/
+
+def Inv10 (s : St) : Prop :=
+  ∀ x, x ∈ s.due ∨ x ∈ s.resolved → ∀ o t k, x.2 = Res.ok o t k → k ≤ 1
+
+theorem inv10_init (c : Cfg) : Inv10 (St.init c) := by
+  intro x hx; simp [St.init] at hx
+
+theorem mem_doneDue_tt {b : Batch} {off ts : Int} {x : Nat × Res} (hx : x ∈ doneDue b off ts) :
+    ∀ o t k, x.2 = Res.ok o t k → k ≤ 1 := by
+  simp only [doneDue, List.mem_map] at hx
+  obtain ⟨⟨r, i⟩, _, rfl⟩ := hx
+  intro o t k hk
+  simp only at hk
+  injection hk with _ _ h3
+  rw [← h3]; exact tsType_le ts
+
+theorem inv10_step {c : Cfg} {s s' : St} {e : Ev} (h : Inv10 s) (st : Step c s e s') : Inv10 s' := by
+  cases st with
+  | doneNoack a b hp hc h0 =>
+    intro x hx
+    rcases mem_due_append hx with hx | hx
+    · exact h x hx
+    · intro o t k hh; rw [mem_map_pair hx] at hh; cases hh
+  | doneOk b fs info off ts hp hc h0 hdec hcode hoff hts =>
+    intro x hx
+    rcases mem_due_append hx with hx | hx
+    · exact h x hx
+    · exact mem_doneDue_tt hx
+  | doneFatal b fs info code hp hc h0 hdec hcode hne h46 hr =>
+    intro x hx
+    rcases mem_due_append hx with hx | hx
+    · exact h x hx
+    · intro o t k hh; rw [mem_map_pair hx] at hh; cases hh
+  | resolvedDue id r due' hu hd =>
+    obtain ⟨h1, h2⟩ := eraseDue_some hd
+    intro x hx
+    rcases mem_resolved_cons hx with (hx | hx) | rfl
+    · exact h x (Or.inl (h2 x hx))
+    · exact h x (Or.inr hx)
+    · exact h _ (Or.inl h1)
+  | giveUpRetry id b hu hd hp hc hin =>
+    intro x hx
+    rcases mem_resolved_cons hx with hx | rfl
+    · rcases mem_due_append (resolved := s.resolved) (by
+        rcases hx with hx | hx
+        · exact Or.inl hx
+        · exact Or.inr hx) with hx | hx
+      · exact h x hx
+      · intro o t k hh; rw [mem_map_pair hx] at hh; cases hh
+    · intro o t k hh; cases hh
+  | giveUpIdle p rest hu hd hp hc hpend =>
+    intro x hx
+    rcases mem_resolved_cons hx with hx | rfl
+    · exact h x hx
+    · intro o t k hh; cases hh
+  | _ => exact h
 
 /-! ## all invariants together -/
 
@@ -1621,15 +1731,16 @@ structure Inv (c : Cfg) (s : St) : Prop where
   i7 : Inv7 c s
   i8 : Inv8 c s
   i9 : Inv9 c s
+  i10 : Inv10 s
 
 theorem inv_init {c : Cfg} (hs : SeqHyp c) : Inv c (St.init c) :=
-  ⟨inv1_init c, inv2_init c, inv3_init c, inv4_init c, inv5_init c, inv6_init c, inv7_init c hs, inv8_init c, inv9_init c⟩
+  ⟨inv1_init c, inv2_init c, inv3_init c, inv4_init c, inv5_init c, inv6_init c, inv7_init c hs, inv8_init c, inv9_init c, inv10_init c⟩
 
 theorem inv_step {c : Cfg} (hs : SeqHyp c) {s s' : St} {e : Ev} (h : Inv c s) (st : Step c s e s') :
     Inv c s' :=
   ⟨inv1_step h.i1 st, inv2_step h.i1 h.i2 st, inv3_step h.i1 h.i3 st, inv4_step h.i4 st,
    inv5_step h.i5 st, inv6_step h.i6 st, inv7_step hs h.i1 h.i3 h.i7 st, inv8_step h.i8 st,
-   inv9_step h.i1 h.i2 h.i9 st⟩
+   inv9_step h.i1 h.i2 h.i9 st, inv10_step h.i10 st⟩
 
 theorem inv_run_from {c : Cfg} (hs : SeqHyp c) {s s' : St} {tr : List Ev} (h : Inv c s)
     (hr : run c s tr = .ok s') : Inv c s' :=
@@ -1697,6 +1808,7 @@ theorem flying_stays {c : Cfg} {s s' : St} {e : Ev} (st : Step c s e s') (a : Ap
   | giveUpIdle p rest hu hd' hp' hc hpend => rw [hp] at hp'; cases hp'
   | waitCall k hk => exact ⟨a, hp⟩
   | waitRet k m hm hall => exact ⟨a, hp⟩
+  | marker => exact ⟨a, hp⟩
 
 theorem flying_run {c : Cfg} : ∀ (mid : List Ev) (s s' : St) (a : Applied), s.phase = .flying a →
     run c s mid = .ok s' → (∀ e ∈ mid, isDone e = false) → ∃ a', s'.phase = .flying a' := by
